@@ -354,6 +354,62 @@ package protocol
 //@   requires u != nil && len(encryptedMeta) >= 24
 //@   ensures err == nil ==> b != nil
 //@
+//@ // UDP exact-size law (C04, C05): a datagram is accepted only if the lengths announced in
+//@ // its authenticated metadata account for every byte after the header - a truncated,
+//@ // extended or re-padded copy of a genuine datagram is refused - and a payload is
+//@ // returned only from a successful DecryptWithNonce of exactly the announced bytes.
+//@ func (u *PacketUnderlay) parseSessionSegment(ss *sessionStruct, nonce []byte, remaining []byte, blockCipher cipher.BlockCipher) (seg *segment, err error)
+//@   property C04 C05
+//@   mode int
+//@   noframe
+//@   may_panic
+//@   preserves ghost(wr), ghost(dsent), PacketUnderlay.baseUnderlay.isClient, sessionStruct.payloadLen, sessionStruct.suffixLen
+//@   requires u != nil && ss != nil && (u.isClient ==> u.block != nil)
+//@   ensures err == nil && ss.payloadLen > 0 ==> len(remaining) == int(ss.payloadLen) + 16 + int(ss.suffixLen)
+//@   ensures err == nil && ss.payloadLen == 0 ==> len(remaining) == int(ss.suffixLen)
+//@   ensures err == nil ==> seg != nil && seg.block == nil && typeof(seg.metadata) == typeid(*sessionStruct) && payload(seg.metadata, *sessionStruct) == ss
+//@   ensures err != nil ==> seg == nil
+//@
+//@ func (u *PacketUnderlay) parseDataAckSegment(das *dataAckStruct, nonce []byte, remaining []byte, blockCipher cipher.BlockCipher) (seg *segment, err error)
+//@   property C04 C05
+//@   mode int
+//@   noframe
+//@   may_panic
+//@   preserves ghost(wr), ghost(dsent), PacketUnderlay.baseUnderlay.isClient, dataAckStruct.payloadLen, dataAckStruct.suffixLen, dataAckStruct.prefixLen
+//@   requires u != nil && das != nil && (u.isClient ==> u.block != nil)
+//@   ensures err == nil && das.payloadLen > 0 ==> len(remaining) == int(das.prefixLen) + int(das.payloadLen) + 16 + int(das.suffixLen)
+//@   ensures err == nil && das.payloadLen == 0 ==> len(remaining) == int(das.prefixLen) + int(das.suffixLen)
+//@   ensures err == nil ==> seg != nil && seg.block == nil && typeof(seg.metadata) == typeid(*dataAckStruct) && payload(seg.metadata, *dataAckStruct) == das
+//@   ensures err != nil ==> seg == nil
+//@
+//@ // TCP framing (C01, C04): after the metadata, exactly the announced number of bytes is
+//@ // consumed from the connection - encrypted payload (+16 byte tag) if any, then padding -
+//@ // so the next read starts at the next segment's metadata whatever the chunking of the
+//@ // stream; the payload handed on comes from a successful Decrypt of exactly those bytes.
+//@ func (t *StreamUnderlay) readSessionSegment(ss *sessionStruct) (seg *segment, err error)
+//@   property C01 C04
+//@   mode int
+//@   noframe
+//@   posts_only
+//@   preserves ghost(wr), ghost(dsent), sessionStruct.payloadLen, sessionStruct.suffixLen, StreamUnderlay.recv, StreamUnderlay.send, StreamUnderlay.baseUnderlay.isClient
+//@   requires t != nil && ss != nil && ss.payloadLen <= 1024 && t.recv != nil && t.conn != nil && typeof(t.conn) != typeid(*bytes.Reader)
+//@   ensures err == nil && ss.payloadLen > 0 ==> ghost(rd) == old(ghost(rd)) + mathint(ss.payloadLen) + 16 + mathint(ss.suffixLen)
+//@   ensures err == nil && ss.payloadLen == 0 ==> ghost(rd) == old(ghost(rd)) + mathint(ss.suffixLen)
+//@   ensures err == nil ==> seg != nil && seg.block == t.recv && typeof(seg.metadata) == typeid(*sessionStruct) && payload(seg.metadata, *sessionStruct) == ss
+//@   ensures err != nil ==> seg == nil
+//@
+//@ func (t *StreamUnderlay) readDataAckSegment(das *dataAckStruct) (seg *segment, err error)
+//@   property C01 C04
+//@   mode int
+//@   noframe
+//@   posts_only
+//@   preserves ghost(wr), ghost(dsent), dataAckStruct.payloadLen, dataAckStruct.suffixLen, dataAckStruct.prefixLen, StreamUnderlay.recv, StreamUnderlay.send, StreamUnderlay.baseUnderlay.isClient
+//@   requires t != nil && das != nil && t.recv != nil && t.conn != nil && typeof(t.conn) != typeid(*bytes.Reader)
+//@   ensures err == nil && das.payloadLen > 0 ==> ghost(rd) == old(ghost(rd)) + mathint(das.prefixLen) + mathint(das.payloadLen) + 16 + mathint(das.suffixLen)
+//@   ensures err == nil && das.payloadLen == 0 ==> ghost(rd) == old(ghost(rd)) + mathint(das.prefixLen) + mathint(das.suffixLen)
+//@   ensures err == nil ==> seg != nil && seg.block == t.recv && typeof(seg.metadata) == typeid(*dataAckStruct) && payload(seg.metadata, *dataAckStruct) == das
+//@   ensures err != nil ==> seg == nil
+//@
 //@ // TCP receive path (C05, C06): same fingerprint rule; nothing is written to the
 //@ // connection while a segment is read; a segment is returned only once a receive
 //@ // cipher is installed (on a server: only after Discover authenticated the first
